@@ -288,4 +288,12 @@ func C20(c *Ctx) {
 
 func C17(c *Ctx) {
 	R21Progress(c)
+	R21Balance(c)
+	var js []*ssa.Function
+	for _, fn := range c.P.ModuleFuncs(func(p string) bool { return p == PkgJSON }) {
+		if fn.Blocks != nil && fn.Pos().IsValid() && strings.HasSuffix(c.P.Fset.Position(fn.Pos()).Filename, "/json/scanner.go") {
+			js = append(js, fn)
+		}
+	}
+	R1Bounds(c, js, "-json", 8)
 }
